@@ -118,11 +118,16 @@ class Sem:
         return [(ix, val, st) for nm, ix, val, st in self.ev.cells if nm == name]
 
     def cell(self, name, index_text):
-        w = self.E(f"{name}[{index_text}]")
+        """value of the (last) store `name[index_text] = ...`; the index is compared by value"""
+        try:
+            w = self.ev._index_value(ast.parse(f"x[{index_text}]", mode="eval").body.slice)
+        except Unsupported:
+            return None
+        found = None
         for ix, val, st in self.cells(name):
-            if not is_unknown(ix) and not is_unknown(w) and need(F.fn("idx", F.sym(name), ix)).equals(need(w)):
-                return val
-        return None
+            if not is_unknown(ix) and need(ix).equals(need(w)):
+                found = val
+        return found
 
     def calls(self, *names):
         return [c for c in self.ev.calls if c[0] in names]
